@@ -25,3 +25,59 @@ package multiproof
 //@ ensures (c0 <= wr_fail(w) && wr_fail(w) < c0 + total) ==> result != nil
 //@ ensures (wr_fail(w) < c0 || wr_fail(w) >= c0 + total) ==> result == nil && wcalls(w) == c0 + total && wlen(w) == n0 + 32 * total
 //@ modifies wcalls(w), wlen(w), wout(w, n0, n0 + 32 * total)
+
+// ---- CheckMultiProof against the reference verifier mp_accept of /verif/spec/mpspec.smt2 (C02)
+
+// the label constants of the reference verifier are the protocol's label strings
+//@ pkginv lab_mp == strbytes("multiproof") && lab_mC == strbytes("C") && lab_mz == strbytes("z") && lab_my == strbytes("y") && lab_mr == strbytes("r") && lab_mD == strbytes("D") && lab_mt == strbytes("t") && lab_mE == strbytes("E")
+
+//@ func domainToFr
+//@ props C02
+//@ prelude field
+//@ ensures result == fr_of_int(in)
+
+//@ func CheckMultiProof
+//@ props C02
+//@ prelude field group bytes bytesint bytesbridge curve frint bary ipa ipaspec frpow mpspec
+//@ let T0 = tr(transcript)
+//@ let HP = heapFp()
+//@ let HR = heapFr()
+//@ let LR = row(proof.IPA.L)
+//@ let Lo = off(proof.IPA.L)
+//@ let RR = row(proof.IPA.R)
+//@ let Ro = off(proof.IPA.R)
+//@ requires validTr(transcript) && validPW(ipaConf.PrecomputedWeights) && obj(ipaConf.PrecomputedWeights) >= 1 && ipaConf.numRounds == 8 && len(ipaConf.SRS) == 256
+//@ requires validP(ipaConf.Q.inner) && validVec(ipaConf.SRS) && validP(proof.D.inner)
+//@ fact vC(k int): 0 <= k && k < len(Cs) ==> obj(Cs[k]) >= 1 && allocated(Cs[k]) && validP(Cs[k].inner)
+//@ fact vY(k int): 0 <= k && k < len(ys) ==> obj(ys[k]) >= 1 && allocated(ys[k])
+//@ fact vL(k int): 0 <= k && k < len(proof.IPA.L) ==> validP(LR[Lo + 3*k], LR[Lo + 3*k + 1], LR[Lo + 3*k + 2])
+//@ fact vR(k int): 0 <= k && k < len(proof.IPA.R) ==> validP(RR[Ro + 3*k], RR[Ro + 3*k + 1], RR[Ro + 3*k + 2])
+//@ ensures @C02 (len(Cs) != len(ys) || len(Cs) != len(zs) || len(Cs) == 0) ==> !result0 && err != nil
+//@ ensures @C02 (len(Cs) == len(ys) && len(Cs) == len(zs) && len(Cs) > 0 && (len(proof.IPA.L) != 8 || len(proof.IPA.R) != 8)) ==> !result0 && err != nil
+//@ ensures @C02 (len(Cs) == len(ys) && len(Cs) == len(zs) && len(Cs) > 0 && len(proof.IPA.L) == 8 && len(proof.IPA.R) == 8) ==> err == nil
+//@ ensures @C02 (len(Cs) == len(ys) && len(Cs) == len(zs) && len(Cs) > 0 && len(proof.IPA.L) == 8 && len(proof.IPA.R) == 8) ==> (result0 <==> mp_accept(HP, HR, Cs, ys, zs, T0, len(Cs), gelP(proof.D.inner), ipaConf.SRS, gelP(ipaConf.Q.inner), proof.IPA.L, proof.IPA.R, proof.IPA.A_scalar))
+//@ modifies *(transcript.buff), hcontent(transcript.state)
+//@ at loopbody 0: inst vC(i)
+//@ at loopbody 0: inst vY(i)
+//@ loop 0 invariant 0 <= i && i <= num_queries && validTr(transcript)
+//@ loop 0 invariant tr(transcript) == mp_pend(HP, HR, Cs, ys, zs, T0, i)
+//@ at call PowersOf 0: ghost Rch := r
+//@ at call PowersOf 0: ghost PW := row(powers_of_r)
+//@ at call PowersOf 0: assert@pw forall k int :: 0 <= k && k < len(Cs) ==> PW[k] == frpow(Rch, k)
+//@ at loopbody 1: inst vY(i)
+//@ loop 1 invariant 0 <= i && i <= num_queries && len(groupedEvals) == 256 && fresh(groupedEvals) && row(powers_of_r) == PW && len(powers_of_r) == num_queries && off(powers_of_r) == 0
+//@ loop 1 invariant forall z int :: 0 <= z && z < 256 ==> groupedEvals[z] == mp_grp(HP, HR, Cs, ys, zs, Rch, z, i)
+//@ loop 2 invariant 0 <= i && i <= 256 && len(helper_scalar_den) == 256 && fresh(helper_scalar_den)
+//@ loop 2 invariant forall k int :: 0 <= k && k < i ==> helper_scalar_den[k] == fr_sub(t, fr_of_int(k))
+//@ at call BatchInvert 0: ghost Tch := t
+//@ at call BatchInvert 0: ghost DEN := row(helper_scalar_den)
+//@ at call BatchInvert 0: ghost GE := row(groupedEvals)
+//@ at call BatchInvert 0: assert@den forall k int :: 0 <= k && k < 256 ==> DEN[k] == mp_den(Tch, k)
+//@ at call BatchInvert 0: assert@ge forall z int :: 0 <= z && z < 256 ==> GE[z] == mp_grp(HP, HR, Cs, ys, zs, Rch, z, len(Cs))
+//@ loop 3 invariant 0 <= i && i <= 256 && row(groupedEvals) == GE && off(groupedEvals) == 0 && len(groupedEvals) == 256 && row(helper_scalar_den) == DEN && off(helper_scalar_den) == 0 && len(helper_scalar_den) == 256
+//@ loop 3 invariant g_2_t == mp_g2(HP, HR, Cs, ys, zs, Rch, Tch, len(Cs), i)
+//@ at loopbody 4: inst vC(i)
+//@ loop 4 invariant 0 <= i && i <= len(Cs) && len(msm_scalars) == len(Cs) && len(Csnp) == len(Cs) && fresh(msm_scalars) && fresh(Csnp) && obj(msm_scalars) != obj(Csnp)
+//@ loop 4 invariant row(powers_of_r) == PW && len(powers_of_r) == num_queries && off(powers_of_r) == 0 && row(helper_scalar_den) == DEN && off(helper_scalar_den) == 0 && len(helper_scalar_den) == 256
+//@ loop 4 invariant forall k int :: 0 <= k && k < i ==> msm_scalars[k] == mp_sc(HP, HR, Cs, ys, zs, Rch, Tch, k)
+//@ loop 4 invariant forall k int :: 0 <= k && k < i ==> validP(Csnp[k].inner) && gelP(Csnp[k].inner) == mp_C(HP, HR, Cs, ys, zs, k)
